@@ -7,7 +7,7 @@ ID = 'C05'
 PROPS_FILE = 'theories/Props/C05.v'
 PROPS_MODULE = 'Props.C05'
 COQ_TARGETS = ['theories/Extract/ExtractSyntax.vo']
-REQUIRED_THEOREMS = []
+REQUIRED_THEOREMS = ['C05_entries_agree', 'C05_runtime_no_comments', 'C05_junk_agree']
 MODEL = 'syn'
 HARNESS_BINS = ['syn_run']
 ANCHORS = ['fluent-syntax/src/parser/runtime.rs', 'fluent-syntax/src/parser/core.rs', 'fluent-syntax/src/parser/comment.rs']
